@@ -2,6 +2,7 @@
 from engine import *
 import provenance
 import guards
+import writes
 import mutations
 import accessors
 import json
@@ -487,3 +488,4 @@ def r11F(F, rid='11.F'):
 
 RULES.append(('11.F', 'filter_block remembers every transaction it reports (return true only after inserting the txid into the matched set; value-refined path rule Func.bool_return_paths)', r11F))
 RULES.append(('11.G', 'guard census: no reviewed call of a workspace function and no reviewed mutation of a stored collection gained a controlling branch condition (an added `&& cond`, early return / continue, more specific match arm in front of an act); counts per call site, name free (rules/guards.py)', lambda F: guards.for_property(F, 'C11', '11.G')))
+RULES.append(('11.W', 'field assignments: every reviewed (function, Type.field) direct assignment is still made - state that a path no longer updates, or updates only conditionally (get_or_insert for an overwrite); generalises NN.R (rules/writes.py)', lambda F: writes.for_property(F, 'C11', '11.W')))
